@@ -81,6 +81,13 @@ def handle : List String → String
       let st := check N (start N 0) true done
       s!"ok {httpCode (healthy false I st (done + (w : Int)))} #slow completed={done} age={w}"
     | _, _, _, _ => "bad-op"
+  -- the server is closed while a check is in flight: the loop shape `exitsOnClose` runs the check inline in the selecting
+  -- goroutine, so after the check returns the next select sees Closed and no further check starts
+  | ["loopmid", _iv] =>
+    let t := Relic.Generated.HealthLoop.term
+    if Relic.HealthLoop.exitsOnClose Relic.HealthLoop.hcName Relic.HealthLoop.closedChan t then "exited extra=0"
+    else if Relic.HealthLoop.spinsOnClose Relic.HealthLoop.closedChan t then "spinning busy"
+    else "unknown"
   | ["loop", k, _iv] =>
     match k.toNat? with
     | some k =>
